@@ -12,7 +12,7 @@ import (
 
 func init() { subcommands["relcwd"] = relcwdCmd }
 
-// relcwd: for every input line `name TAB occ` prints `RelToCwd(name) TAB PortionAfterSep(name, "/", occ)`.
+// relcwd: for every input line `name TAB occ` prints `RelToCwd(name) TAB PortionAfterSep(name, "/", occ) TAB AbsFromCwd(RelToCwd(name))`.
 // RelToCwd uses the working directory captured at process start, so the caller starts one process per cwd.
 func relcwdCmd(args []string) int {
 	sc := bufio.NewScanner(os.Stdin)
@@ -24,7 +24,12 @@ func relcwdCmd(args []string) int {
 		if len(parts) > 1 {
 			occ, _ = strconv.Atoi(parts[1])
 		}
-		fmt.Fprintf(w, "%s\t%s\n", tokenhelper.RelToCwd(parts[0]), tokenhelper.PortionAfterSep(parts[0], "/", occ))
+		// third field: the key diagnostics are ordered by, AbsFromCwd of the cwd-relative name (absolute names only)
+		key := ""
+		if strings.HasPrefix(parts[0], "/") {
+			key = tokenhelper.AbsFromCwd(tokenhelper.RelToCwd(parts[0]))
+		}
+		fmt.Fprintf(w, "%s\t%s\t%s\n", tokenhelper.RelToCwd(parts[0]), tokenhelper.PortionAfterSep(parts[0], "/", occ), key)
 	}
 	return 0
 }
